@@ -64,6 +64,9 @@ func genBatch(rng *rand.Rand, sizes ...int64) (first, k, boundary int64) {
 // the per-epoch correspondence cases of a long batch are emitted for its first and last epoch and for the epochs
 // next to the boundary (the oracles look at every epoch)
 func (b *batchEnv) caseFor(e, last int64) bool {
+	if !batchCases {
+		return false
+	}
 	d := e - b.boundary
 	return e == b.first || e == last || (d >= -2 && d <= 2)
 }
@@ -179,7 +182,11 @@ func credTermBoth(cs []credit) []interface{} {
 	return l
 }
 
-func runBatches(rng *rand.Rand, out *Out) {
+// the oracles run on every batch; the correspondence cases with the model are emitted for every other one
+var batchCases = true
+
+func runBatches(rng *rand.Rand, out *Out, withCases bool) {
+	batchCases = withCases
 	batchStake(rng, out)
 	batchSentinel(rng, out)
 	batchPillar(rng, out)
@@ -491,8 +498,10 @@ func batchLiquidity(rng *rand.Rand, out *Out) {
 		if rewarded == 0 {
 			tag = "batch-nothing-due"
 		}
-		out.Case("liq_update", Tup(I64(b.g), I64(b.dur), I64(b.now), I64(last)), Tup(I64(0), ms, I64(newLast)), tag)
-		out.Case("cursor", Tup(I64(1), I64(b.g), I64(b.dur), I64(b.now), I64(last)), Tup(eps, I64(newLast)), "liquidity-"+tag)
+		if batchCases {
+			out.Case("liq_update", Tup(I64(b.g), I64(b.dur), I64(b.now), I64(last)), Tup(I64(0), ms, I64(newLast)), tag)
+			out.Case("cursor", Tup(I64(1), I64(b.g), I64(b.dur), I64(b.now), I64(last)), Tup(eps, I64(newLast)), "liquidity-"+tag)
+		}
 		if rewarded < perCall && rng.Intn(4) != 0 {
 			break // nothing more is due (sometimes asked anyway: the call issues nothing)
 		}
